@@ -26,8 +26,26 @@ package requestf
 //@   witness i = readBuf.buf.i
 //@   modifies *st, readBuf.buf.i
 //@   allocates
-//@   ensures readBuf.buf.i >= p0
-//@   ensures validR(readBuf)
+//@   opaque [C03] *
+//@   ensures [C05] readBuf.buf.i >= p0
+//@   let q1 = decIntP(src, p0, 1)
+//@   let q2 = decIntP(src, q1, 2)
+//@   let q3 = decIntP(src, q2, 3)
+//@   let q4 = decIntP(src, q3, 4)
+//@   let q5 = decStrP(src, q4, 5)
+//@   let ok1 = atHead(src, p0, 1) && decIntK(src, p0, 1, true, 2) == 0
+//@   let ok2 = ok1 && atHead(src, q1, 2) && decIntK(src, q1, 2, true, 1) == 0
+//@   let ok3 = ok2 && atHead(src, q2, 3) && decIntK(src, q2, 3, true, 4) == 0
+//@   let ok4 = ok3 && atHead(src, q3, 4) && decIntK(src, q3, 4, true, 4) == 0
+//@   let ok5 = ok4 && atHead(src, q4, 5) && decStrK(src, q4, 5, true) == 0
+//@   let ok6 = ok5 && atHead(src, q5, 6) && decStrK(src, q5, 6, true) == 0
+//@   ensures [C03] (ok1 && err == nil) ==> st.IVersion == decIntV(src, p0, 1)
+//@   ensures [C03] (ok2 && err == nil) ==> st.CPacketType == decIntV(src, q1, 2)
+//@   ensures [C03] (ok3 && err == nil) ==> st.IMessageType == decIntV(src, q2, 3)
+//@   ensures [C03] (ok4 && err == nil) ==> st.IRequestId == decIntV(src, q3, 4)
+//@   ensures [C03] (ok5 && err == nil) ==> st.SServantName == decStrV(src, q4, 5)
+//@   ensures [C03] (ok6 && err == nil) ==> st.SFuncName == decStrV(src, q5, 6)
+//@   ensures [C05] validR(readBuf)
 //@   loop 0 invariant [C05] validR(readBuf) && readBuf.buf.i >= p0 && len(st.SBuffer) == length
 //@   loop 1 invariant [C05] validR(readBuf) && readBuf.buf.i >= p0 && st.Context != nil
 //@   loop 2 invariant [C05] validR(readBuf) && readBuf.buf.i >= p0 && st.Status != nil
@@ -59,8 +77,23 @@ package requestf
 //@   witness i = readBuf.buf.i
 //@   modifies *st, readBuf.buf.i
 //@   allocates
-//@   ensures readBuf.buf.i >= p0
-//@   ensures validR(readBuf)
+//@   opaque [C03] *
+//@   ensures [C05] readBuf.buf.i >= p0
+//@   let q1 = decIntP(src, p0, 1)
+//@   let q2 = decIntP(src, q1, 2)
+//@   let q3 = decIntP(src, q2, 3)
+//@   let q4 = decIntP(src, q3, 4)
+//@   let ok1 = atHead(src, p0, 1) && decIntK(src, p0, 1, true, 2) == 0
+//@   let ok2 = ok1 && atHead(src, q1, 2) && decIntK(src, q1, 2, true, 1) == 0
+//@   let ok3 = ok2 && atHead(src, q2, 3) && decIntK(src, q2, 3, true, 4) == 0
+//@   let ok4 = ok3 && atHead(src, q3, 4) && decIntK(src, q3, 4, true, 4) == 0
+//@   let ok5 = ok4 && atHead(src, q4, 5) && decIntK(src, q4, 5, true, 4) == 0
+//@   ensures [C03] (ok1 && err == nil) ==> st.IVersion == decIntV(src, p0, 1)
+//@   ensures [C03] (ok2 && err == nil) ==> st.CPacketType == decIntV(src, q1, 2)
+//@   ensures [C03] (ok3 && err == nil) ==> st.IRequestId == decIntV(src, q2, 3)
+//@   ensures [C03] (ok4 && err == nil) ==> st.IMessageType == decIntV(src, q3, 4)
+//@   ensures [C03] (ok5 && err == nil) ==> st.IRet == decIntV(src, q4, 5)
+//@   ensures [C05] validR(readBuf)
 //@   loop 0 invariant [C05] validR(readBuf) && readBuf.buf.i >= p0 && len(st.SBuffer) == length
 //@   loop 1 invariant [C05] validR(readBuf) && readBuf.buf.i >= p0 && st.Status != nil
 //@   loop 2 invariant [C05] validR(readBuf) && readBuf.buf.i >= p0 && st.Context != nil
@@ -74,3 +107,59 @@ package requestf
 //@   allocates
 //@   ensures readBuf.buf.i >= p0
 //@   safety [C05]
+//
+// ------------------------------------------------------------------ encoders (property C03)
+// WriteTo appends to the buffer; what it appends starts with the schema encoding of the members up to the
+// head and element count of the first map (every member under its tag and admissible wire type, ascending
+// tags, required members present, narrowest integer width, byte vector as SimpleList). The bodies of the
+// maps are not specified (map iteration order is not modelled).
+//
+//@ pred strMapOK(m) = forall k: seq :: haskey(m, k) ==> len(k) < 4294967296 && len(m[k]) < 4294967296
+//
+//@ func (*RequestPacket).WriteTo
+//@   requires st != nil && validB(buf) && len(st.SBuffer) <= 2147483647 && len(st.Context) <= 2147483647 && len(st.Status) <= 2147483647
+//@   requires len(st.SServantName) < 4294967296 && len(st.SFuncName) < 4294967296 && strMapOK(st.Context) && strMapOK(st.Status)
+//@   let pre = buf.buf.bytes ++ encReqHead(st.IVersion, st.CPacketType, st.IMessageType, st.IRequestId, st.SServantName, st.SFuncName, st.SBuffer, st.ITimeout, len(st.Context))
+//@   opaque head encInt8 encInt16 encInt32 encString
+//@   perreturn
+//@   modifies buf.buf.bytes
+//@   ensures [C03] err == nil && prefixof(pre, buf.buf.bytes)
+//@   loop 0 invariant [C03] err == nil && st != nil && validB(buf) && prefixof(pre, buf.buf.bytes)
+//@   loop 1 invariant [C03] err == nil && st != nil && validB(buf) && prefixof(pre, buf.buf.bytes)
+//@   safety [C03]
+//
+//@ func (*ResponsePacket).WriteTo
+//@   requires st != nil && validB(buf) && len(st.SBuffer) <= 2147483647 && len(st.Context) <= 2147483647 && len(st.Status) <= 2147483647
+//@   requires len(st.SResultDesc) < 4294967296 && strMapOK(st.Context) && strMapOK(st.Status)
+//@   let pre = buf.buf.bytes ++ encRspHead(st.IVersion, st.CPacketType, st.IRequestId, st.IMessageType, st.IRet, st.SBuffer, len(st.Status))
+//@   opaque head encInt8 encInt16 encInt32 encString
+//@   perreturn
+//@   modifies buf.buf.bytes
+//@   ensures [C03] err == nil && prefixof(pre, buf.buf.bytes)
+//@   loop 0 invariant [C03] err == nil && st != nil && validB(buf) && prefixof(pre, buf.buf.bytes)
+//@   loop 1 invariant [C03] err == nil && st != nil && validB(buf) && prefixof(pre, buf.buf.bytes)
+//@   safety [C03]
+//
+// WriteBlock frames the struct as a nested field: StructBegin head under the given tag, the members, StructEnd head (tag 0).
+//
+//@ func (*RequestPacket).WriteBlock
+//@   requires st != nil && validB(buf) && len(st.SBuffer) <= 2147483647 && len(st.Context) <= 2147483647 && len(st.Status) <= 2147483647
+//@   requires len(st.SServantName) < 4294967296 && len(st.SFuncName) < 4294967296 && strMapOK(st.Context) && strMapOK(st.Status)
+//@   let pre = buf.buf.bytes ++ head(StructBegin, tag) ++ encReqHead(st.IVersion, st.CPacketType, st.IMessageType, st.IRequestId, st.SServantName, st.SFuncName, st.SBuffer, st.ITimeout, len(st.Context))
+//@   opaque head encReqHead encRspHead
+//@   modifies buf.buf.bytes
+//@   ensures [C03] result == nil
+//@   ensures [C03] prefixof(pre, buf.buf.bytes)
+//@   ensures [C03] suffixof(head(StructEnd, 0), buf.buf.bytes)
+//@   safety [C03]
+//
+//@ func (*ResponsePacket).WriteBlock
+//@   requires st != nil && validB(buf) && len(st.SBuffer) <= 2147483647 && len(st.Context) <= 2147483647 && len(st.Status) <= 2147483647
+//@   requires len(st.SResultDesc) < 4294967296 && strMapOK(st.Context) && strMapOK(st.Status)
+//@   let pre = buf.buf.bytes ++ head(StructBegin, tag) ++ encRspHead(st.IVersion, st.CPacketType, st.IRequestId, st.IMessageType, st.IRet, st.SBuffer, len(st.Status))
+//@   opaque head encReqHead encRspHead
+//@   modifies buf.buf.bytes
+//@   ensures [C03] result == nil
+//@   ensures [C03] prefixof(pre, buf.buf.bytes)
+//@   ensures [C03] suffixof(head(StructEnd, 0), buf.buf.bytes)
+//@   safety [C03]
